@@ -99,6 +99,11 @@ func NewReverseSuffixSearcher(
 	if len(suffixBytes) == 0 {
 		return nil, ErrNoPrefilter
 	}
+	// The `.*literal` fast path locates the match on one line; it cannot be used when
+	// the suffix literal itself contains a newline (e.g. `.*\n`, `.*a\nb`).
+	if bytes.IndexByte(suffixBytes, '\n') >= 0 {
+		matchStartZero = false
+	}
 	suffixLen := len(suffixBytes)
 
 	// Build prefilter from suffix literals
